@@ -11,6 +11,9 @@ from ..gfi.common import run_for
 def run(chk, prog):
     n, obs = run_for(chk, prog, "C01", ALL)
     chk.floor("obligations tagged C01", n, 170)
+    # "any program" includes partially applied closures (shared with C32)
+    from ._share import take
+    take(chk, prog, "C32", lambda o: ".assess" in o["instance"] or ".simulate" in o["instance"], "closure obligations on the simulate / assess paths (from C32)", 2)
     chk.explanation = "structural-induction obligations for C01: every trace agrees with assess (TRACE-ARGS/SCORE/RETVAL/CHOICES, ASSESS-AGREE, CARRY-THREAD, IDX-ALIGN per constructor); each inner GFI call is an opaque atom (induction hypothesis), the derived provenance terms / linear forms are compared with the oracle table"
     for o in [o for o in obs.items if "C01" in o["props"]][:6]:
         chk.sample({"rule": o["rule"], "instance": o["instance"], "derived": o["derived"][:200], "expected": o["expected"][:160]})
